@@ -349,6 +349,19 @@ pub fn codec(out: &mut Out, count: u64) {
 
 // -------------------------------------------------------------------------------------------
 
+/// An inbound PUBLISH (topic "t", packet id 3) of exactly `total` bytes.
+pub(super) fn exact_publish(total: usize, qos: u8) -> Vec<u8> {
+    let pid = (qos > 0).then_some(3);
+    let mut pad = total.saturating_sub(wire::publish(b"t", pid, qos, false, false, &[], &[]).len());
+    loop {
+        let p = wire::publish(b"t", pid, qos, false, false, &[], &vec![0x41; pad]);
+        if p.len() <= total || pad == 0 {
+            return p;
+        }
+        pad -= 1; // the remaining length grew by a byte
+    }
+}
+
 pub fn maxsize(out: &mut Out, count: u64) {
     let base = CfgSpec::basic(64, 512);
     let mut special: Vec<Item> = Vec::new();
@@ -380,17 +393,37 @@ pub fn maxsize(out: &mut Out, count: u64) {
         it.drain = true;
         special.push(it);
     }
-    // Inbound packets of rx-1, rx, rx+1 bytes.
-    for delta in [-1i64, 0, 1] {
-        for qos in [0u8, 1] {
-            let total = (base.rx as i64 + delta) as usize;
-            let overhead = wire::publish(b"t", (qos > 0).then_some(3), qos, false, false, &[], &[]).len();
-            let publish = wire::publish(b"t", (qos > 0).then_some(3), qos, false, false, &[], &vec![0x41; total - overhead]);
-            let mut it = Item::new(format!("case=inbound-size total=rx{delta:+} qos={qos}"), base.clone(), "poll".into());
-            it.req = vec![format!("rx {}", hex(&publish)), "poll".into(), "poll".into()];
-            it.drain = true;
-            special.push(it);
+    // Exact-fit inbound publishes: total size rx-1, rx, rx+1; with rx = 300 also the sizes where
+    // the remaining length needs its second byte.
+    let mut fits: Vec<(usize, usize, u8)> = Vec::new();
+    for rx in [32usize, 64, 128, 300] {
+        for total in [rx - 1, rx, rx + 1] {
+            for qos in 0..3u8 {
+                fits.push((rx, total, qos));
+            }
         }
+    }
+    for total in [129usize, 130, 131] {
+        for qos in 0..3u8 {
+            fits.push((300, total, qos));
+        }
+    }
+    for (rx, total, qos) in fits {
+        let publish = exact_publish(total, qos);
+        let mut cfg = base.clone();
+        cfg.rx = rx;
+        let mut it = Item::new(
+            format!("case=exact-fit rx={rx} total={} qos={qos}", publish.len()),
+            cfg,
+            "poll".into(),
+        );
+        it.req = vec![format!("rx {}", hex(&publish)), "poll".into(), "poll".into()];
+        if qos == 2 {
+            it.req.push("rx 62020003".into());
+            it.req.push("poll".into());
+        }
+        it.drain = true;
+        special.push(it);
     }
     let n_special = special.len();
 
@@ -436,7 +469,8 @@ pub fn maxsize(out: &mut Out, count: u64) {
     }
     let replay_limits = [10u32, 20, 29, 30, 31];
     let count = count as usize;
-    let left = count.saturating_sub(n_special + replay_limits.len());
+    let n_next = 7;
+    let left = count.saturating_sub(n_special + replay_limits.len() + n_next);
     let chosen = stride(grid.len(), left);
     let mut items: Vec<Item> = Vec::new();
     for i in chosen {
@@ -453,6 +487,48 @@ pub fn maxsize(out: &mut Out, count: u64) {
     let mut idx = 0u64;
     for it in special.iter().chain(items.iter()).take(count) {
         it.emit(out, idx);
+        idx += 1;
+    }
+    // Control and release entries meeting a smaller limit on the next connection.
+    let next: [(&str, u32); 7] = [
+        ("puback-queued", 4), ("puback-queued", 5), ("puback-queued", 6),
+        ("pubrel-unsent", 4), ("pubrel-unsent", 5), ("pubrel-sent", 4), ("pubrel-sent", 5),
+    ];
+    for (what, limit) in next {
+        if idx >= count as u64 {
+            return;
+        }
+        let mut d = Drv::new(&base, out.rng(idx));
+        d.split_rx = false;
+        d.connect(&ConnSpec::plain());
+        if what == "puback-queued" {
+            let publish = wire::publish(b"t", Some(9), 1, false, false, &[], b"p");
+            d.send_raw("publish1", &publish);
+            d.x("poll"); // delivers the message; the PUBACK is queued, not written
+            d.go();
+        } else {
+            d.x(&PubLine::simple(2, "t", b"q2").text());
+            d.go();
+            d.deliver_all(); // PUBREC
+            d.x("poll");
+            if what == "pubrel-sent" {
+                d.go();
+            } else {
+                super::fam_behind::until_write(&mut d);
+                d.x("cancel");
+            }
+        }
+        d.x("drop");
+        d.connect(&ConnSpec { sp: Sp::Fixed(true), rc: 0, props: mps(limit) });
+        d.go();
+        for _ in 0..3 {
+            if d.live() {
+                d.x("poll");
+                d.go();
+            }
+        }
+        d.drain();
+        out.emit(idx, "", &format!("case=next-connection what={what} limit={limit}"), &d);
         idx += 1;
     }
     // Retained packets replayed on a later connection that announces a smaller limit.
